@@ -356,55 +356,84 @@ def reach_expr(stmts, target):
     return ast.fix_missing_locations(ast.copy_location(e, cs[0][0]))
 
 
-def final_assignments(stmts, atoms, names, upto=None, max_paths=5000):
-    """Enumerates the feasible control-flow paths of `stmts` under the 3-valued atom valuation `atoms(expr) -> True/False/UNK` (infeasible
-    branches are pruned) and returns, per path, (terminal kind, {name: last assigned value expression}) for the given local names.
-    `upto`: stop a path when the CFG node containing this AST node is reached (terminal kind 'upto').  Independent of whether an
-    assignment is written as if/else, conditional expression (N4) or with early exits."""
+def mk_atoms(facts):
+    """3-valued atom valuation from {source text: bool}: also answers the negated spellings (`a not in b` from `a in b`, `x is not None` from
+    `x is None`, `x != c` from `x == c`) so that a rule states each fact once."""
+    from .cfg import UNK
+    NEGOP = {ast.NotIn: ast.In, ast.IsNot: ast.Is, ast.NotEq: ast.Eq}
+    POSOP = {v: k for k, v in NEGOP.items()}
+
+    def atoms(e):
+        t = src(e)
+        if t in facts:
+            return facts[t]
+        if isinstance(e, ast.Compare) and len(e.ops) == 1:
+            for table in (NEGOP, POSOP):
+                if type(e.ops[0]) in table:
+                    alt = ast.Compare(left=e.left, ops=[table[type(e.ops[0])]()], comparators=e.comparators)
+                    ta = src(alt)
+                    if ta in facts:
+                        return not facts[ta]
+        return UNK
+    return atoms
+
+
+def explore(stmts, atoms, names=(), upto=None, max_paths=20000, exceptions=False):
+    """Feasible control-flow paths of `stmts` under the 3-valued atom valuation `atoms(expr)` (branches whose test evaluates to a constant are
+    pruned; constants assigned to plain locals on the path are tracked, so `flag = True ... if flag:` is followed).  Returns one dict per
+    path: kind ('return'/'raise'/'fall'/'continue'/'break' or 'upto'), stmt (the terminating Return/Raise statement or None),
+    calls (source of every call evaluated, in order), stores ((target, value, kind) of every attribute / item assignment, in order), env (name -> last assigned value expression for `names`, or all plain locals when
+    names is None), path (for messages)."""
     from .cfg import CFG, eval3, UNK
-    cfg = CFG(stmts, exceptions=False)
+    cfg = CFG(stmts, exceptions=exceptions)
     stop_ids = set(cfg_nodes_containing(cfg, upto)) if upto is not None else set()
+    res = []
 
     def step(state, node, label):
-        env, stopped = state
-        if stopped:
-            return None
-        if node.id in stop_ids:
-            return (env, True) if label in ('', 'next', 'true', 'false', 'body', 'exit', 'fall') or True else None
+        cenv, env, calls, last, stores = state
+        if label.startswith('exc:'):
+            return state
         if node.kind == 'test' and label in ('true', 'false') and isinstance(node.ast, (ast.If, ast.While)):
-            v = eval3(node.ast.test, {}, atoms)
+            v = eval3(node.ast.test, cenv, atoms)
             if v is not UNK and bool(v) != (label == 'true'):
                 return None
-        if node.kind == 'stmt' and isinstance(node.ast, ast.Assign):
-            for t in node.ast.targets:
-                if isinstance(t, ast.Name) and t.id in names:
-                    env = dict(env)
-                    env[t.id] = node.ast.value
-        return (env, False)
-    out = []
-    seen_stop = set()
-    for p, (env, stopped) in cfg.paths(state0=({}, False), step=step, max_paths=max_paths):
+        if node.id in stop_ids:
+            res.append({'kind': 'upto', 'stmt': None, 'calls': calls, 'env': env, 'path': None, 'stores': stores})
+            return None
+        cs = tuple(src(c) for c in sorted(node_calls(node), key=lambda c: (c.lineno, c.col_offset))) if label in ('', 'next', 'true', 'false', 'body', 'exit', 'loop', 'iter') or True else ()
+        if node.kind == 'test' and label == 'false':
+            pass
+        calls = calls + cs
+        if node.kind == 'stmt' and isinstance(node.ast, ast.Assign) and len(node.ast.targets) == 1 and isinstance(node.ast.targets[0], ast.Name):
+            nm = node.ast.targets[0].id
+            val = node.ast.value
+            cenv = dict(cenv)
+            cenv[nm] = val.value if isinstance(val, ast.Constant) else (cenv.get(val.id, UNK) if isinstance(val, ast.Name) else UNK)
+            if names is None or nm in names:
+                env = dict(env)
+                env[nm] = val
+        elif node.kind == 'stmt' and isinstance(node.ast, (ast.AugAssign,)) and isinstance(node.ast.target, ast.Name):
+            cenv = dict(cenv)
+            cenv[node.ast.target.id] = UNK
+        elif node.kind == 'for':
+            cenv = dict(cenv)
+            for n in ast.walk(node.ast.target):
+                if isinstance(n, ast.Name):
+                    cenv[n.id] = UNK
+        if node.kind == 'stmt' and isinstance(node.ast, (ast.Assign, ast.AugAssign)):
+            for t in (node.ast.targets if isinstance(node.ast, ast.Assign) else [node.ast.target]):
+                if isinstance(t, (ast.Subscript, ast.Attribute)):
+                    stores = stores + ((src(t), src(node.ast.value), type(node.ast).__name__),)
+        if node.kind == 'stmt' and isinstance(node.ast, (ast.Return, ast.Raise)):
+            last = node.ast
+        return (cenv, env, calls, last, stores)
+    for p, (cenv, env, calls, last, stores) in cfg.paths(state0=({}, {}, (), None, ()), step=step, max_paths=max_paths):
         kind = cfg.nodes[p[-1][0]].info
-        out.append((kind, env))
-    if upto is not None:
-        # paths cut at `upto`: collect the environments that reach it
-        res = []
+        if upto is None:
+            res.append({'kind': kind, 'stmt': last if kind in ('return', 'raise') else None, 'calls': calls, 'env': env, 'path': cfg.fmt_path(p), 'stores': stores})
+    return res
 
-        def step2(state, node, label):
-            env = state
-            if node.kind == 'test' and label in ('true', 'false') and isinstance(node.ast, (ast.If, ast.While)):
-                v = eval3(node.ast.test, {}, atoms)
-                if v is not UNK and bool(v) != (label == 'true'):
-                    return None
-            if node.id in stop_ids:
-                res.append(env)
-                return None
-            if node.kind == 'stmt' and isinstance(node.ast, ast.Assign):
-                for t in node.ast.targets:
-                    if isinstance(t, ast.Name) and t.id in names:
-                        env = dict(env)
-                        env[t.id] = node.ast.value
-            return env
-        cfg.paths(state0={}, step=step2, max_paths=max_paths)
-        return [('upto', e) for e in res]
-    return out
+
+def final_assignments(stmts, atoms, names, upto=None, max_paths=5000):
+    """(terminal kind, {name: last assigned value expression}) per feasible path - see explore()"""
+    return [(r['kind'], r['env']) for r in explore(stmts, atoms, names=names, upto=upto, max_paths=max_paths)]
